@@ -1510,9 +1510,9 @@ Definition front_matter_prologue (o : bopts) (st : pstate) (s : bytes) : res (ps
     match sp with
     | None => Ok (st, s)
     | Some (fm, rest) =>
-      let lines := count_lf fm in
+      let lines := count_line_endings fm in
       do stripped <- remove_trailing_blank_lines fm;
-      let stripped_lines := count_lf stripped in
+      let stripped_lines := count_line_endings stripped in
       do a <- add_child o st root_id (FrontMatter fm) 1;
       let '(node, st1) := a in
       do r <- unwrap_parent "mod.rs:feed:self.finalize(node).unwrap()" (finalize o st1 node);
